@@ -29,7 +29,7 @@ PROPS = {
                 mc=["tandem", "tri", "route", "cls"], inv=["Inv_C03"], step=["Step_C03"]),
     "C06": dict(fam=["core1", "tandem", "renege"], mc=["core1", "tandem"], inv=["Inv_C06"], step=["Step_C06"]),
     "C07": dict(fam=["tandem", "cls", "route"], mc=["tandem", "tri", "cls"], inv=["Inv_C07"], step=["Step_C07"]),
-    "C10": dict(fam=["core1", "tandem", "prio", "renege"], mc=["core1", "tandem", "prio"],
+    "C10": dict(fam=["core1", "tandem", "prio", "renege", "fault"], mc=["core1", "tandem", "prio"],
                 inv=["Inv_C10"], step=["Step_C10"]),
     "C04": dict(fam=["tandem", "prio", "preempt", "sched", "schedpre", "core1"],
                 mc=["tandem", "preempt", "sched", "schedpre"], inv=["Inv_C04"], step=["Step_C04"]),
@@ -126,7 +126,7 @@ def judge(prop, verdicts, traces, known):
                 kf.append((expl[0], clause, idx, t))
             else:
                 viol.append((clause, idx, t, v))
-        if t["outcome"] in ("crash", "livelock") and prop == "C14":
+        if t["outcome"] in ("crash", "livelock") and prop == "C14" and not t["cfg"].get("fault"):
             cr = t["crash"]
             expl = [f for f in open_f if f["id"] in taint or
                     (f.get("signature", {}).get("crash") == [cr["type"], cr["where"]])]
